@@ -36,7 +36,7 @@ def plan(tier):
         "assumptions": ["an observation of more than `cap` unresolved bits at once (register lists) is resolved from a "
                         "pattern alphabet; the evidence reports words_outside_cap",
                         "UNPREDICTABLE instances may be accepted or rejected, but not decoded as a different instruction"],
-        "deadline_s": 170 if tier == "quick" else 1700,
+        "deadline_s": 400 if tier == "quick" else 1700,
     }
 
 
